@@ -601,8 +601,15 @@ class T:
         return self._binop(o, lambda x, y: x - y, "arith", swap=True)
 
     def __mul__(self, o):
-        if isinstance(o, T) and o.dtype == "bool" and self.dtype != "bool":
-            return self._binop(o, lambda x, y: x * y, "arith")
+        if isinstance(o, T) and o.dtype == "bool" and self.dtype != "bool" and self.nan is None and o.nan is None:
+            # x * mask  ==  where(mask, x, 0) for finite x (A1): keeps the product out of the nonlinear fragment
+            r = where(o, self, 0)
+            if r.dtype == self.dtype:
+                return r
+        if isinstance(o, T) and self.dtype == "bool" and o.dtype != "bool" and self.nan is None and o.nan is None:
+            r = where(self, o, 0)
+            if r.dtype == o.dtype:
+                return r
         return self._binop(o, lambda x, y: x * y, "arith")
 
     __rmul__ = __mul__
@@ -1291,7 +1298,37 @@ def _nan_bcast(n):
 def _merge_eshape(a, b):
     ea = getattr(a, "eshape", None)
     eb = getattr(b, "eshape", None) if isinstance(b, T) else None
-    return ea if ea is not None else eb
+    if ea is None or eb is None:
+        return ea if ea is not None else eb
+    # torch broadcasting of the element shapes (right-aligned; a size-1 dimension stretches) when both ranks are
+    # known and the time axes are laid out alike; otherwise the left operand's shape (sizes assumed compatible)
+    ta, tb = getattr(a, "taxis", None), getattr(b, "taxis", None)
+    if getattr(a, "pure_time", False):  # a 1-D tensor broadcasts against the LAST dimension
+        ta = "last"
+    if getattr(b, "pure_time", False):
+        tb = "last"
+    same_layout = ta == tb or ta is None and tb == "first" or tb is None and ta == "first"
+    if not same_layout or any(isinstance(i, Star) for i in ea.items + eb.items):
+        return ea
+    xa, xb = list(ea.items), list(eb.items)
+    n = max(len(xa), len(xb))
+    xa = [None] * (n - len(xa)) + xa
+    xb = [None] * (n - len(xb)) + xb
+
+    def one(v):
+        return isinstance(v, int) and v == 1
+
+    out = []
+    for p, q in zip(xa, xb):
+        if p is None:
+            out.append(q)
+        elif q is None:
+            out.append(p)
+        elif one(p):
+            out.append(q)
+        else:
+            out.append(p)
+    return Shape(out)
 
 
 def _norm_bound(b, L, default_lo):
@@ -1487,6 +1524,10 @@ def where(cond, a, b):
     es = _merge_eshape(x, y)
     if es is None:
         es = getattr(c, "eshape", None)
+    elif isinstance(c, T) and c.eshape is not None:
+        # the condition broadcasts too
+        holder = T(z3.BoolVal(True), "bool", tl2, ta2, es)
+        es = _merge_eshape(holder, c)
     if tl2 is None:
         return T(val(None), rt, None, None, es, nanf(None) if has_nan else None)
     return T(val, rt, tl2, ta2, es, nanf if has_nan else None)
